@@ -267,6 +267,10 @@ pub fn main(args: &[String]) -> i32 {
             crate::c08c::run(sc, &mut out);
             continue;
         }
+        if sc["instrot"].as_bool().unwrap_or(false) {
+            crate::c08r::run(sc, &mut out);
+            continue;
+        }
         if sc["encdom"].as_bool().unwrap_or(false) {
             // the big-integer encoder on a value that may not fit the declared width
             let nb = sc["nbits"].as_u64().unwrap_or(8) as u32;
